@@ -4,9 +4,11 @@ package main
 // every accessor compared with the Lean model (Artela/Model/{CallTree,StateChanges}.lean).
 
 import (
+	"bytes"
 	"errors"
 	"fmt"
 	"math/big"
+	"sort"
 
 	"github.com/artela-network/artela-evm/vm"
 	"github.com/ethereum/go-ethereum/common"
@@ -125,7 +127,7 @@ func nodeTypeStr(n vm.NodeType) string {
 	return "?"
 }
 
-func (it *implTracer) qNode(acct common.Address, name []byte, path [][]byte) string {
+func (it *implTracer) qNode(acct common.Address, name []byte, path [][]byte, sorted bool) string {
 	k := it.t.StateChanges().FindKeyIndices(acct, string(name), path...)
 	if k == nil {
 		return "nokey"
@@ -138,8 +140,26 @@ func (it *implTracer) qNode(acct common.Address, name []byte, path [][]byte) str
 	for _, c := range k.Children() {
 		kids = append(kids, hexNatU(c.Slot())+"/"+hexU64(uint64(c.Offset())))
 	}
+	if sorted {
+		// order-insensitive view (C11): names sorted; children as a sorted multiset
+		names = sortedHex(k.ChildrenIndices())
+		sort.Strings(kids)
+		return fmt.Sprintf("slot=%s off=%s type=%s idx=%s kidset=%s changes=%s", hexNatU(k.Slot()), hexU64(uint64(k.Offset())),
+			nodeTypeStr(k.NodeType()), listStr(names), listStr(kids), showChangesImpl(true, k.Changes()))
+	}
 	return fmt.Sprintf("slot=%s off=%s type=%s idx=%s kids=%s changes=%s", hexNatU(k.Slot()), hexU64(uint64(k.Offset())),
 		nodeTypeStr(k.NodeType()), listStr(names), listStr(kids), showChangesImpl(true, k.Changes()))
+}
+
+func sortedHex(l [][]byte) []string {
+	c := make([][]byte, len(l))
+	copy(c, l)
+	sort.Slice(c, func(i, j int) bool { return bytes.Compare(c[i], c[j]) < 0 })
+	out := []string{}
+	for _, x := range c {
+		out = append(out, hexBytes(x))
+	}
+	return out
 }
 
 func optU(u *uint256.Int) string { return hexNatU(u) }
@@ -169,11 +189,11 @@ func genTracerCase(r *Rng, em *Emitter, length int, al *tracerAlphabet) {
 	var regs []reg
 
 	query := func(full bool) {
-		q := func(op, impl string) { em.Op("Q "+op, impl) }
+		q := func(tags, op, impl string) { em.Op(tags, "Q "+op, impl) }
 		sc := it.t.StateChanges()
 		doVar := func(a common.Address, n []byte, p [][]byte) {
 			k := sc.FindKeyIndices(a, string(n), p...)
-			q(fmt.Sprintf("var %s %s %s", hexAddr(a), hexBytes(n), bytesList(p)), showChangesImpl(k != nil, sc.Variable(a, string(n), p...)))
+			q("C10,C11", fmt.Sprintf("var %s %s %s", hexAddr(a), hexBytes(n), bytesList(p)), showChangesImpl(k != nil, sc.Variable(a, string(n), p...)))
 			idx := sc.IndicesOfChanges(a, string(n), p...)
 			is := "nokey"
 			if k != nil {
@@ -183,8 +203,13 @@ func genTracerCase(r *Rng, em *Emitter, length int, al *tracerAlphabet) {
 				}
 				is = listStr(ss)
 			}
-			q(fmt.Sprintf("idx %s %s %s", hexAddr(a), hexBytes(n), bytesList(p)), is)
-			q(fmt.Sprintf("node %s %s %s", hexAddr(a), hexBytes(n), bytesList(p)), it.qNode(a, n, p))
+			q("C16", fmt.Sprintf("idx %s %s %s", hexAddr(a), hexBytes(n), bytesList(p)), is)
+			q("C16", fmt.Sprintf("node %s %s %s", hexAddr(a), hexBytes(n), bytesList(p)), it.qNode(a, n, p, false))
+			if k != nil {
+				is = listStr(sortedHex(idx))
+			}
+			q("C11", fmt.Sprintf("idxs %s %s %s", hexAddr(a), hexBytes(n), bytesList(p)), is)
+			q("C11,C10", fmt.Sprintf("nodes %s %s %s", hexAddr(a), hexBytes(n), bytesList(p)), it.qNode(a, n, p, true))
 		}
 		doSlot := func(a common.Address, s, o *uint256.Int, t common.Hash) {
 			c, err := sc.Slot(a, s, o, t)
@@ -201,12 +226,12 @@ func genTracerCase(r *Rng, em *Emitter, length int, al *tracerAlphabet) {
 					ans = showChangeMap(c.Changes())
 				}
 			}
-			q(fmt.Sprintf("slot %s %s %s %s", hexAddr(a), optU(s), optU(o), hexHash(t)), ans)
+			q("C10,C11", fmt.Sprintf("slot %s %s %s %s", hexAddr(a), optU(s), optU(o), hexHash(t)), ans)
 		}
 		if full {
-			q("tree", it.qTree())
+			q("C07,C08,C16", "tree", it.qTree())
 			for _, a := range al.accounts {
-				q("bal "+hexAddr(a), func() string {
+				q("C13,C16", "bal "+hexAddr(a), func() string {
 					// Balance returns nil both for an unknown account and for a root without changes
 					b := sc.Balance(a)
 					if b == nil {
@@ -232,7 +257,7 @@ func genTracerCase(r *Rng, em *Emitter, length int, al *tracerAlphabet) {
 		} else {
 			switch pick(4) {
 			case 0:
-				q("tree", it.qTree())
+				q("C07,C08,C16", "tree", it.qTree())
 			case 1:
 				p := [][]byte{}
 				for i := pick(3); i > 0; i-- {
@@ -248,7 +273,7 @@ func genTracerCase(r *Rng, em *Emitter, length int, al *tracerAlphabet) {
 				if b != nil {
 					ans = showChangeMap(b.Changes())
 				}
-				q("bal "+hexAddr(a), ans)
+				q("C13,C16", "bal "+hexAddr(a), ans)
 			}
 		}
 	}
@@ -261,7 +286,7 @@ func genTracerCase(r *Rng, em *Emitter, length int, al *tracerAlphabet) {
 			if err == nil {
 				regs = append(regs, reg{a, s, o, t})
 			}
-			em.Op(fmt.Sprintf("T key %s - %s %s %s 0 %s", hexAddr(a), optU(s), optU(o), hexHash(t), hexBytes(n)), okErr(err))
+			em.Op("C11", fmt.Sprintf("T key %s - %s %s %s 0 %s", hexAddr(a), optU(s), optU(o), hexHash(t), hexBytes(n)), okErr(err))
 			em.Count("regTop:" + okErr(err))
 		case k < 44: // register nested
 			a, p, s, o, t, pt, n := acct(), slot(), slot(), off(), typ(), typ(), al.idxKeys[pick(len(al.idxKeys))]
@@ -273,7 +298,7 @@ func genTracerCase(r *Rng, em *Emitter, length int, al *tracerAlphabet) {
 			if err == nil {
 				regs = append(regs, reg{a, s, o, t})
 			}
-			em.Op(fmt.Sprintf("T key %s %s %s %s %s %s %s", hexAddr(a), optU(p), optU(s), optU(o), hexHash(t), hexHash(pt), hexBytes(n)), okErr(err))
+			em.Op("C11", fmt.Sprintf("T key %s %s %s %s %s %s %s", hexAddr(a), optU(p), optU(s), optU(o), hexHash(t), hexHash(pt), hexBytes(n)), okErr(err))
 			em.Count("regNested:" + okErr(err))
 		case k < 72: // journal a change
 			a, s, o, t, v := acct(), slot(), off(), typ(), al.vals[pick(len(al.vals))]
@@ -282,7 +307,7 @@ func genTracerCase(r *Rng, em *Emitter, length int, al *tracerAlphabet) {
 				a, s, o, t = g.a, g.s, g.o, g.t
 			}
 			err := it.t.SaveStateChange(a, s, o, t, v)
-			em.Op(fmt.Sprintf("T change %s %s %s %s %s", hexAddr(a), optU(s), optU(o), hexHash(t), hexBytes(v)), okErr(err))
+			em.Op("C11,C10", fmt.Sprintf("T change %s %s %s %s %s", hexAddr(a), optU(s), optU(o), hexHash(t), hexBytes(v)), okErr(err))
 			em.Count("change:" + okErr(err))
 		case k < 82: // enter call
 			from, to := acct(), acct()
@@ -293,7 +318,7 @@ func genTracerCase(r *Rng, em *Emitter, length int, al *tracerAlphabet) {
 			data := al.vals[pick(len(al.vals))]
 			val, gas := uint256.NewInt(uint64(pick(3))), uint256.NewInt(uint64(pick(1000)))
 			it.t.SaveCall(from, top, data, val, gas)
-			em.Op(fmt.Sprintf("T call %s %s %s %s %s", hexAddr(from), hexAddrP(top), hexBytes(data), hexNatU(val), hexNatU(gas)), "ok")
+			em.Op("-", fmt.Sprintf("T call %s %s %s %s %s", hexAddr(from), hexAddrP(top), hexBytes(data), hexNatU(val), hexNatU(gas)), "ok")
 			open++
 			em.Count("call")
 		case k < 91: // exit call (possibly unbalanced)
@@ -307,7 +332,7 @@ func genTracerCase(r *Rng, em *Emitter, length int, al *tracerAlphabet) {
 				err = errors.New([]string{"out of gas", "execution reverted", "x"}[pick(3)])
 			}
 			it.t.ExitCall(g, ret, err)
-			em.Op(fmt.Sprintf("T exit %s %s %s", hexU64(g), optBytes(ret), errStr(err)), "ok")
+			em.Op("-", fmt.Sprintf("T exit %s %s %s", hexU64(g), optBytes(ret), errStr(err)), "ok")
 			if open > 0 {
 				open--
 				em.Count("exit")
@@ -324,7 +349,7 @@ func genTracerCase(r *Rng, em *Emitter, length int, al *tracerAlphabet) {
 				db.AddBalance(rcp, a)
 			})
 			af, at := it.db.GetBalance(from), it.db.GetBalance(to)
-			em.Op(fmt.Sprintf("T transfer %s %s %s %s %s %s", hexAddr(from), hexAddr(to), hexNatBig(bf), hexNatBig(bt), hexNatBig(af), hexNatBig(at)), "ok")
+			em.Op("-", fmt.Sprintf("T transfer %s %s %s %s %s %s", hexAddr(from), hexAddr(to), hexNatBig(bf), hexNatBig(bt), hexNatBig(af), hexNatBig(at)), "ok")
 			if from == to {
 				em.Count("transfer-self")
 			} else {
@@ -333,7 +358,7 @@ func genTracerCase(r *Rng, em *Emitter, length int, al *tracerAlphabet) {
 		default:
 			a, s, v := acct(), slot(), typ()
 			it.t.SaveRawStateChange(a, *s, v)
-			em.Op(fmt.Sprintf("T raw %s %s %s", hexAddr(a), optU(s), hexHash(v)), "ok")
+			em.Op("-", fmt.Sprintf("T raw %s %s %s", hexAddr(a), optU(s), hexHash(v)), "ok")
 			em.Count("raw")
 		}
 		query(false)
